@@ -241,3 +241,93 @@ COMMIT = re.compile(r"^rusqlite::transaction::(Transaction|Savepoint)::<'_>::com
 def upvar_path(name):
     """closure capture symbols of precise captures look like `self__conn`: split into a field path"""
     return tuple(x for x in name.split("__") if x)
+
+
+# ---------------------------------------------------------------- typed place walking
+def _strip_ref(ty):
+    ty = ty.strip()
+    for pre in ("&mut ", "&'_ mut ", "&"):
+        if ty.startswith(pre):
+            return ty[len(pre):].strip(), True
+    m = re.match(r"^&'\w+ (mut )?", ty)
+    if m:
+        return ty[m.end():].strip(), True
+    for box in ("alloc::boxed::Box<", "alloc::sync::Arc<", "alloc::rc::Rc<"):
+        if ty.startswith(box) and ty.endswith(">"):
+            return ty[len(box):-1].split(",")[0].strip(), True
+    return ty, False
+
+
+def place_field_owners(F, body, place):
+    """[(adt_id, field_name)] for each field projection of `place` whose base type is a workspace ADT"""
+    out = []
+    ty = body.ty(place[0])
+    for p in place[1:]:
+        if ty is None:
+            # unknown base type: still report by name with unknown owner
+            if isinstance(p, list) and p[0] == "f":
+                out.append((None, p[2]))
+            continue
+        if p == "*":
+            ty, _ = _strip_ref(ty)
+            continue
+        if isinstance(p, list) and p[0] == "f":
+            base = ty
+            while True:
+                nb, stripped = _strip_ref(base)
+                if not stripped:
+                    break
+                base = nb
+            head = base.split("<", 1)[0]
+            adt = F.adts.get(head)
+            if adt is None:
+                out.append((None, p[2]))
+                ty = None
+                continue
+            out.append((head, p[2]))
+            fty = None
+            for v in adt["variants"]:
+                if p[1] < len(v["fields"]) and v["fields"][p[1]]["name"] == p[2]:
+                    fty = v["fields"][p[1]]["ty"]
+            ty = fty
+        elif isinstance(p, list) and p[0] == "d":
+            continue
+        else:
+            ty = None
+    return out
+
+
+def field_mutation_sites(F, adt_id, field, bodies=None):
+    """(body, bb, how, line): places where `adt_id.field` is assigned, mutably borrowed or moved out of/into"""
+    out = []
+    for b in (bodies if bodies is not None else F.bodies.values()):
+        live = None
+        for bb, bl in enumerate(b.blocks):
+            for i, s in enumerate(bl["s"]):
+                if s[0] != "A":
+                    continue
+                hit = None
+                # destination
+                if len(s[1]) > 1 and any(isinstance(p, list) and p[0] == "f" and p[2] == field for p in s[1][1:]):
+                    if (adt_id, field) in place_field_owners(F, b, s[1]):
+                        hit = "assign"
+                rv = s[2]
+                if hit is None and rv[0] == "ref" and rv[1] == "mut" and any(isinstance(p, list) and p[0] == "f" and p[2] == field for p in rv[2][1:]):
+                    if (adt_id, field) in place_field_owners(F, b, rv[2]):
+                        hit = "&mut"
+                if hit is None and rv[0] == "ptr" and any(isinstance(p, list) and p[0] == "f" and p[2] == field for p in rv[1][1:]):
+                    if (adt_id, field) in place_field_owners(F, b, rv[1]):
+                        hit = "rawptr"
+                if hit:
+                    if live is None:
+                        live = b.live_blocks()
+                    if bb in live:
+                        out.append((b, bb, hit, s[3]))
+            t = bl["term"]
+            if t["t"] == "call" and len(t["dest"]) > 1 and any(isinstance(p, list) and p[0] == "f" and p[2] == field for p in t["dest"][1:]):
+                if (adt_id, field) in place_field_owners(F, b, t["dest"]):
+                    if live is None:
+                        live = b.live_blocks()
+                    if bb in live:
+                        out.append((b, bb, "assign-call", t.get("line", 0)))
+    return out
